@@ -30,7 +30,7 @@ Qed.
 
 (* the model's own fuel covers the measure *)
 Lemma finish st c K U st2 sched : minv st c 0 [] (s_active st2) [] st2 K U -> s_delayed st2 = [] -> s_tab st2 = s_tab st ->
-  exists st', drain (fuel_for st2) sched st2 = Ok st' /\ final st K U st'.
+  exists st', drain (fuel_for st2) sched st2 = Ok st' /\ final st c K U st'.
 Proof.
   intros INV DL ET. apply (drain_final st c K U (fuel_for st2) sched st2 0 INV).
   unfold mu, lvl, fuel_for. rewrite DL, ET. cbn [app length]. rewrite wsum_app.
